@@ -26,6 +26,12 @@ impl<'a> Iterator for Ipv6ExtensionSliceIter<'a> {
         use ip_number::*;
         use Ipv6ExtensionSlice::*;
 
+        // the validated range can end in front of a header referenced by
+        // "next_header" (e.g. when lax parsing stopped early)
+        if self.rest.is_empty() {
+            return None;
+        }
+
         match self.next_header {
             // Note on the unsafe calls:
             //
